@@ -23,7 +23,8 @@ EXHAUSTIVE = {"quick": "all windows for n in 1..6 on each generated matrix",
 MIN_NONTRIVIAL = {"quick": 3000, "thorough": 30000}
 REQUIRED_PROBES = ["get_spans", "filllower"]
 REQUIRED_FEATURES = ["window:anchored", "window:disjoint", "window:overlap", "window:nested",
-                     "window:overlap:T", "window:nested:T", "window:disjoint:T", "spans:edge-on-empty-row"]
+                     "window:overlap:T", "window:nested:T", "window:disjoint:T", "spans:edge-on-empty-row",
+                     "file:legacy-int32-offset-index", "file:legacy-int32-offset-index:nnz^2>=2^31"]
 
 PATS = ["dense", "sparse30", "sparse70", "emptyrows", "nodiag", "diag", "fullrow", "lastrow", "isolated",
         "sparse05", "empty", "emptyrows"]
@@ -42,6 +43,9 @@ def plan(tier, seed):
         shards.append({"kind": "exh_small", "ns": [1, 2, 3], "sub": sid})
         shards.append({"kind": "spell", "n": 6, "cases": 6, "sub": sid + 1})
         shards.append({"kind": "sampled", "n": 17, "windows": 1500, "sub": sid + 2, "symm": True})
+        # scale boundary: (pixels in the row range) x (number of chunks) beyond 2**31 on a 32-bit offset index
+        shards.append({"kind": "sampled", "n": 312, "windows": 12, "sub": sid + 3, "symm": True, "legacy": True})
+        shards.append({"kind": "sampled", "n": 222, "windows": 12, "sub": sid + 4, "symm": False, "legacy": True})
     else:
         sid = 0
         for n in (10, 9, 8, 7, 6):
@@ -55,6 +59,8 @@ def plan(tier, seed):
             shards.append({"kind": "spell", "n": 7 + i, "cases": 10, "sub": sid + 1 + i})
         for i, n in enumerate((17, 40, 17, 40, 25, 33)):
             shards.append({"kind": "sampled", "n": n, "windows": 5000, "sub": sid + 10 + i, "symm": i % 3 != 2})
+        for i, n in enumerate((312, 222, 330, 240)):
+            shards.append({"kind": "sampled", "n": n, "windows": 40, "sub": sid + 20 + i, "symm": i % 2 == 0, "legacy": True})
     return shards
 
 
@@ -77,7 +83,10 @@ def run(ctx, shard):
     elif k == "sampled":
         rng = ctx.rng("sampled", shard["sub"])
         pat = ["sparse30", "emptyrows", "dense", "nodiag"][shard["sub"] % 4]
-        one_matrix(ctx, f"sampled:{shard['sub']}", rng, shard["n"], pat, shard["symm"], shard["windows"])
+        if shard.get("legacy"):
+            pat = "dense"
+        one_matrix(ctx, f"sampled:{shard['sub']}", rng, shard["n"], pat, shard["symm"], shard["windows"],
+                   legacy=shard.get("legacy"))
     elif k == "spell":
         run_spell(ctx, shard)
 
@@ -155,7 +164,7 @@ def window_key(form, w, symm):
     return f"window-{form}:{'symm' if symm else 'square'}:{br}{':T' if tr else ''}"
 
 
-def one_matrix(ctx, cid, rng, n, pat, symm, nsample):
+def one_matrix(ctx, cid, rng, n, pat, symm, nsample, legacy=None):
     import cooler.api as api
 
     if not ctx.want(cid):
@@ -171,6 +180,18 @@ def one_matrix(ctx, cid, rng, n, pat, symm, nsample):
     E = {kk: float(int(rng.integers(-60, 60))) / 4.0 for kk in P}
     make_cooler(path + ("::" + group if group != "/" else ""), bt, P, symm=symm, mode="a", extra={"score": E},
                 count_dtype=np.float64 if values == "dyadic" else None)
+    if legacy is None:
+        legacy = bool(rng.random() < 0.2)
+    if legacy:
+        # layout of files written by early versions: 32-bit offset indexes, no storage-mode attribute
+        with h5py.File(path, "r+") as f:
+            g = f[group]
+            for k_ in ("bin1_offset", "chrom_offset"):
+                d_ = g["indexes"][k_][:].astype(np.int32)
+                del g["indexes"][k_]
+                g["indexes"].create_dataset(k_, data=d_)
+            if symm and rng.random() < 0.5:
+                del g.attrs["storage-mode"]
     D = model.dense(P, n, symm)
     DE = model.dense(E, n, symm)
     rowsE = [(k, i, j, E[(i, j)]) for k, (i, j) in enumerate(sorted(P))]
@@ -180,6 +201,10 @@ def one_matrix(ctx, cid, rng, n, pat, symm, nsample):
     mkey = {"n": n, "pattern": pat, "symm": symm, "pixels": sorted((i, j, v) for (i, j), v in P.items())}
     with ctx.case(cid, {"n": n, "pattern": pat, "symm": symm, "nnz": nnz, "chunksizes": chunks}) as c:
         c.feature(f"mode:{'symm' if symm else 'square'}", f"pattern:{pat}")
+        if legacy:
+            c.feature("file:legacy-int32-offset-index")
+        if legacy and nnz > 46341:
+            c.feature("file:legacy-int32-offset-index:nnz^2>=2^31")
         if any(i == j for i, j in P):
             c.feature("matrix:has-diagonal")
         if nsample is None:
@@ -188,6 +213,9 @@ def one_matrix(ctx, cid, rng, n, pat, symm, nsample):
         else:
             windows = sample_windows(rng, n, nsample)
             chunks = [1, 3, max(nnz // 3, 1), 10_000_000]
+            if n > 100:
+                windows = [(0, n, 0, n), (0, n - 5, 3, n), (n // 2, n, 0, n // 2)] + windows
+                chunks = [1, 2, 7, 10_000_000]
         nw = 0
         c.feature("location:root" if group == "/" else "location:nested-group")
         with h5py.File(path, "r") as h5f:
